@@ -30,6 +30,8 @@ ASSUMPTIONS = [
     "interpreter positions (lineno/col_offset/end_*) of CPython 3.12 are the reference for clause 4",
 ]
 BUDGET = {"quick": (4000, 240), "thorough": (100000, 2700)}
+# thorough tier: rope modules instrumented for the coverage-guided (atheris) stage, see vlib/fuzzworker.py
+FUZZ_MODULES = ["rope.refactor.patchedast", "rope.base.codeanalyze", "rope.base.ast"]
 
 HAZARDS = {"comment_in_bracket", "backslash_cont", "multiline_bracket", "prefixed_string", "semicolon", "tabs", "implicit_concat", "multiline_string"}
 
